@@ -439,5 +439,35 @@ def execute(sim, scn):
             sim.probe("pending_at_quiescence")
             if q["matched"] is not None:
                 sim.violation("C02/matching-response-not-delivered", dict(ident, t_match=q["matched"][0]))
+            # a request may stay pending only if no error indication concerning it was delivered to the endpoint
+            tok = bytes(rec["msg"].token) if rec["msg"].token else None
+            own_send_failed = False
+            for ev in sim.events:
+                if ev[1] == "net" and ev[2] == "senderr" and ev[3] == fmt(me):
+                    try:
+                        fm = rc.decode(bytes.fromhex(ev[6]))
+                    except rc.FormatError:
+                        continue
+                    if tok and fm["token"] == tok and 1 <= fm["code"] < 32:
+                        own_send_failed = True
+            if own_send_failed:
+                sim.violation("C02/request-pending-after-its-send-failed", ident)
+            elif q["first"] is not None and not scn.get("stall"):
+                R = q["remote"]
+                t0 = q["t0"]
+                ind = []
+                ind += ["icmp" for (t, a) in icmps if a == R and t > t0 + TOL]
+                ind += ["senderr" for (t, d) in senderrs if d == fmt(R) and t > t0 + TOL]
+                mids = {e["msg"]["mid"] for e in sent if e["dst"] == R and e["msg"]["token"] == q["token"]
+                        and 1 <= e["msg"]["code"] < 32}
+                for (t, e, data) in delivered:
+                    if e["src"] == R and e["msg"] is not None and e["msg"]["type"] == rc.RST and e["msg"]["mid"] in mids \
+                            and not e["forged"]:
+                        ind.append("rst")
+                for e in wire:
+                    if e["src"] == me and e["dst"] == R:
+                        ind += ["icmp" for (t, err) in e.get("icmp", []) if t > t0 + TOL]
+                if ind:
+                    sim.violation("C02/request-pending-despite-error-indication", dict(ident, indications=sorted(set(ind))))
     for (t, m, en, es) in sim.loop_exceptions():
         sim.anomaly("loop-exception:%s" % en, "%s %s" % (m, es))
